@@ -25,7 +25,7 @@ CONV_CLASS = {
     'cf1d': 'CFGrid1D', 'cf2d': 'CFGrid2D', 'shoc_simple': 'ShocSimple',
     'shoc_standard': 'ShocStandard', 'ugrid': 'UGrid',
 }
-DTYPES = ['f8', 'f4', 'i4', 'i2', 'i8']
+DTYPES = ['f8', 'f4', 'i4', 'i2', 'i8', 'dt', 'td']
 
 
 # ----------------------------------------------------------------------------------------
@@ -110,12 +110,16 @@ def _gen_vars(rng, kinds, max_vars, extra_pool, *, allow_perm=True, name_pool=No
         # keep a canonical order of extras (time first) unless permuted
         extras = sorted(extras, key=lambda e: extra_pool.index(e))
         dtype = rng.choice(DTYPES)
-        if dtype.startswith('f'):
+        if dtype in ('dt', 'td') and kind is None:
+            dtype = 'f8'      # a datetime variable that is not on a grid would be indistinguishable from a time coordinate
+        if dtype in ('dt', 'td'):
+            fill, fillv = None, None      # datetime64 / timedelta64 data (e.g. time of last update): NaT is its missing value
+        elif dtype.startswith('f'):
             fill = rng.choice([None, None, '_FillValue', 'missing_value'])
             fillv = rng.choice([-999.0, 1e20, -1e10]) if fill else None
             if dtype == 'f4' and fillv == 1e20:
                 fillv = float(numpy.float32(1e20))
-        else:
+        elif dtype not in ('dt', 'td'):
             fill = rng.choice([None, None, '_FillValue', 'missing_value'])
             fillv = rng.choice([-999, -1, 0, 32767 if dtype == 'i2' else 99999]) if fill else None
             if dtype == 'i8' and fill and rng.random() < 0.5:
@@ -133,7 +137,8 @@ def _gen_vars(rng, kinds, max_vars, extra_pool, *, allow_perm=True, name_pool=No
             'dtype': dtype, 'fill': fill, 'fillv': fillv, 'perm': perm, 'pack': pack,
             'missing_frac': rng.choice([0, 0, 0.15, 0.3]),
             'missing_seed': rng.randrange(1 << 30),
-            'attrs': rng.choice([{}, {'long_name': f'var {vi}'}, {'units': 'psu', 'long_name': 'x'}]),
+            'attrs': rng.choice([{}, {'long_name': f'var {vi}'}, {'units': 'psu', 'long_name': 'x'},
+                                 {'source': 'model run 7', 'comment': 'as delivered'}, {'dtype_hint': 'float', 'zlib': 'no'}]),
         })
     return out
 
@@ -332,6 +337,7 @@ def gen_world(rng, *, convs=CONVS, max_n=5, max_faces=10, max_vars=5, allow_hole
             # the size-2 dimension of the edge tables: the conventional name or any other
             'two_dim': rng.choice(['Two', 'Two', 'nv2', 'pair']),
             'face_coords': rng.random() < 0.3,
+            'edge_coords': has_edges and rng.random() < 0.35,
             'coords_as_vars': False,
         })
         spec['attrs']['Conventions'] = rng.choice(['UGRID-1.0', 'CF-1.6, UGRID-1.0'])
@@ -419,7 +425,8 @@ LON_ATTRS = {
 
 
 def _np_dtype(code):
-    return numpy.dtype({'f8': 'float64', 'f4': 'float32', 'i4': 'int32', 'i2': 'int16', 'i8': 'int64'}[code])
+    return numpy.dtype({'f8': 'float64', 'f4': 'float32', 'i4': 'int32', 'i2': 'int16', 'i8': 'int64',
+                        'dt': 'datetime64[ns]', 'td': 'timedelta64[ns]'}[code])
 
 
 def parse_time_units(units):
@@ -495,7 +502,7 @@ class World:
                 r.shuffle(dims)
             gsize = int(numpy.prod(sshape)) if kind else 1
             etotal = int(numpy.prod(eshape)) if eshape else 1
-            wide = v['dtype'] in ('f8', 'i4', 'i8')
+            wide = v['dtype'] in ('f8', 'i4', 'i8', 'dt', 'td')
             base = (vi + 1) * 100000 if wide else (vi + 1)
             if v['dtype'] == 'i8':
                 base += 3000000000 * (vi + 1)      # values that do not fit 32 bits (exact in float64)
@@ -504,7 +511,7 @@ class World:
             info.update({'sdims': sdims, 'sshape': sshape, 'edims': edims, 'eshape': eshape,
                          'dims': dims, 'gsize': gsize, 'etotal': etotal, 'base': base, 'shift': shift})
             # initial missing elements (only where representable)
-            can_miss = v['dtype'].startswith('f') or v['fill'] is not None
+            can_miss = v['dtype'].startswith('f') or v['fill'] is not None or v['dtype'] in ('dt', 'td')
             info['can_miss'] = can_miss
             miss = set()
             if can_miss and v['missing_frac'] and kind:
@@ -620,6 +627,20 @@ class World:
         dtype = _np_dtype(v['dtype'])
         missing = numpy.isnan(full)
         attrs = dict(v['attrs'])
+        if v['dtype'] in ('dt', 'td'):
+            # the canonical number is a count of seconds (since 2000-01-01 for datetimes)
+            secs = numpy.where(missing, 0, full).astype('int64')
+            attrs.pop('units', None)        # the units of a datetime-like variable belong to its encoding
+            if v['dtype'] == 'dt':
+                data = (numpy.datetime64('2000-01-01T00:00:00', 's') + secs.astype('timedelta64[s]')).astype('datetime64[ns]')
+                data = numpy.where(missing, numpy.datetime64('NaT'), data)
+            else:
+                data = secs.astype('timedelta64[s]').astype('timedelta64[ns]')
+                data = numpy.where(missing, numpy.timedelta64('NaT'), data)
+            da = xarray.DataArray(data, dims=src_dims, attrs=attrs)
+            if v['dims'] != src_dims:
+                da = da.transpose(*v['dims'])
+            return da
         if v.get('pack'):
             # raw (undecoded) form: stored = (physical - add_offset) / scale_factor, exactly representable by construction
             stored = numpy.round((full - v['pack']['offset']) / v['pack']['scale'])
@@ -908,6 +929,12 @@ class World:
             mesh_attrs['face_coordinates'] = 'Mesh2_face_x Mesh2_face_y'
             data_vars['Mesh2_face_x'] = xarray.DataArray(numpy.array(cx), dims=['nMesh2_face'], attrs={'units': 'degrees_east'})
             data_vars['Mesh2_face_y'] = xarray.DataArray(numpy.array(cy), dims=['nMesh2_face'], attrs={'units': 'degrees_north'})
+        if s.get('edge_coords') and s['edges'] is not None:
+            ex = [float(numpy.mean([s['nodes'][n][0] for n in e])) for e in s['edges']]
+            ey = [float(numpy.mean([s['nodes'][n][1] for n in e])) for e in s['edges']]
+            mesh_attrs['edge_coordinates'] = 'Mesh2_edge_x Mesh2_edge_y'
+            data_vars['Mesh2_edge_x'] = xarray.DataArray(numpy.array(ex), dims=['nMesh2_edge'], attrs={'units': 'degrees_east', 'long_name': 'edge x'})
+            data_vars['Mesh2_edge_y'] = xarray.DataArray(numpy.array(ey), dims=['nMesh2_edge'], attrs={'units': 'degrees_north', 'long_name': 'edge y'})
         data_vars['Mesh2'] = xarray.DataArray(numpy.int32(0), attrs=mesh_attrs)
 
     # -- names of geometry variables per the generator (never via emsarray) --------------
@@ -931,6 +958,8 @@ class World:
         names += [self.CONN_NAMES[t] for t in s['tables']]
         if s.get('face_coords'):
             names += ['Mesh2_face_x', 'Mesh2_face_y']
+        if s.get('edge_coords') and s['edges'] is not None:
+            names += ['Mesh2_edge_x', 'Mesh2_edge_y']
         return names
 
 
